@@ -444,8 +444,7 @@ def report(chk, rejected):
     for t, c in rejected:
         if t["k"] == "font":
             what = "%s: %s limits %s" % (c, t.get("src"), t.get("limits_user"))
-            rep = {"k": "font", "src": t.get("src"), "src_kind": t.get("src_kind"), "limits_user": t.get("limits_user"),
-                   "case": t.get("case"), "D": t.get("D"), "variant": t.get("variant"), "opts": t.get("opts")}
+            rep = {"k": "font", "src": t.get("src"), "src_kind": t.get("src_kind"), "limits_user": t.get("limits_user"), "re": t.get("re")}
         else:
             what = "%s on %s" % (c, json.dumps(describe(t), default=repr)[:700])
             rep = t
